@@ -32,7 +32,7 @@ OWNERS = {
     'latexnodes/parsers/_verbatim.py': ['C01', 'C02', 'C05', 'C06'],
     'latexnodes/_callablespecbase.py': ['C02'],
     'latexwalker/_walker.py': ['C16', 'C20', 'C06', 'C05', 'C09'],
-    'latexwalker/_defaultspecs.py': ['C02', 'C07'],
+    'latexwalker/_defaultspecs.py': ['C10', 'C02', 'C07'],
     'latex2text/__init__.py': ['C03', 'C12', 'C07'],
     'latex2text/_inputlatexfile.py': ['C15'],
     'latex2text/_defaultspecs.py': ['C03', 'C08', 'C07'],
@@ -199,6 +199,9 @@ def make_scratch(m, root):
                            REPO + '/', d + '/'])
     p = os.path.join(d, 'pylatexenc', m['file'])
     b = open(p, 'rb').read()
+    if not b[m['a']:m['b']].decode('utf-8', 'replace').startswith(m['before'][:80]):
+        shutil.rmtree(d, ignore_errors=True)
+        raise ValueError('source changed since the mutant was generated: %s:%s' % (m['file'], m['line']))
     open(p, 'wb').write(b[:m['a']] + m['after'].encode('utf-8') + b[m['b']:])
     return d
 
@@ -221,6 +224,35 @@ def run_check(d, c):
     return r.returncode, (v[0][:200] if v else '')
 
 
+def recheck(a):
+    """survivors of an earlier sweep against the current checks"""
+    recs = [json.loads(l) for l in open(a.recheck)]
+    surv = [r for r in recs if r['tests'] == 'pass' and not r['caught_by']]
+    if a.files:
+        surv = [r for r in surv if r['file'] in a.files.split(',')]
+    root = tempfile.mkdtemp(prefix='mutsweep.', dir='/tmp')
+    try:
+        with open(a.out, 'a') as out:
+            for r in surv:
+                try:
+                    d = make_scratch(r, root)
+                except ValueError:
+                    continue
+                rec = dict(r, checks={}, caught_by=None, recheck=True)
+                for c in (a.checks.split(',') if a.checks else OWNERS.get(r['file'], [])):
+                    rc, v = run_check(d, c)
+                    rec['checks'][c] = rc
+                    if rc == 1:
+                        rec['caught_by'] = c
+                        rec['violation'] = v
+                        break
+                shutil.rmtree(d, ignore_errors=True)
+                out.write(json.dumps(rec) + '\n')
+                out.flush()
+    finally:
+        shutil.rmtree(root, ignore_errors=True)
+
+
 def main():
     ap = argparse.ArgumentParser()
     ap.add_argument('out')
@@ -229,7 +261,12 @@ def main():
     ap.add_argument('--jobs', type=int, default=8)
     ap.add_argument('--files', default='')
     ap.add_argument('--list', action='store_true')
+    ap.add_argument('--recheck', default='', help='jsonl of an earlier sweep: re-run its survivors')
+    ap.add_argument('--checks', default='', help='with --recheck: comma list of checks (default: owners)')
     a = ap.parse_args()
+    if a.recheck:
+        recheck(a)
+        return
     files = a.files.split(',') if a.files else sorted(OWNERS)
     allm = []
     for rel in files:
